@@ -1,4 +1,4 @@
-"""C05 - histogram counts and reverse indices partition the binned data (E1)."""
+"""C05 - histogram counts and reverse indices partition the binned data (E1 + E2)."""
 import itertools
 
 import numpy as np
@@ -10,7 +10,8 @@ RULE = (
     "(max >= min) x entry {histogram, Binner.dohist}; each case runs BOTH engines "
     "(compiled, pure python) and compares them with each other and with the "
     "reference.  non-trivial = the data contain a tie, a value exactly on a bin "
-    "edge, or a datum that is not counted (outside limits / invalid bin)."
+    "edge, or a datum that is not counted (outside limits / invalid bin).  E2: every sequence of <=3 (4) "
+    "dohist calls with changing binning/limits on ONE Binner object, last result vs the reference for that call alone."
 )
 ASSUMPTIONS = [
     "reference model: bin index floor((x-min)/binsize) evaluated in float64 exactly as the statement writes it",
@@ -184,3 +185,64 @@ def main(ctx):
 
     ctx.lattice("two-symbol-long", units2, one, expand=expand2,
                 bounds=dict(length=LL, symbol_pairs=pairs))
+
+    # ------------------------------------------------------------------ E2
+    # repeated dohist() calls with changing binning / limits on ONE Binner object:
+    # the result of the last call must be what the reference gives for that call alone
+    HOPS = (("binsize", 1.0, None, None), ("binsize", 0.5, 0.5, None), ("binsize", 1.0, None, 2.0),
+            ("nbin", 3, None, None), ("nbin", 2, 1.0, 3.7), ("binsize", 0.3, -1.0, 1.0), ("binsize", 2.5, 1.0, None))
+    HDATA = {"d1": (0.0, 0.5, 1.0, 1.5, 2.0, 3.7, -1.0, 0.1), "d2": (2.0, 2.0, 1.0, 3.7, 0.30000000000000004),
+             "d3": (1.0, 1.0, 1.0)}
+
+    def make_execute(dname, engine):
+        def execute(hist, rec):
+            from mc.util import fingerprint
+
+            arr = np.array(HDATA[dname])
+            su.have_chist = engine
+            try:
+                b = stat.Binner(arr)
+                last = None
+                for (bkind, bval, mn, mx) in hist:
+                    kw = dict(min=mn, max=mx, rev=True, calc_stats=False)
+                    kw[bkind] = bval
+                    try:
+                        b.dohist(**kw)
+                        last = (b["hist"].copy(), b["rev"].copy())
+                    except ValueError:
+                        last = "ValueError"
+                    except Exception as e:
+                        last = "%s: %s" % (type(e).__name__, e)
+            finally:
+                su.have_chist = True
+            if hist:
+                bkind, bval, mn, mx = hist[-1]
+                ref = reference(arr, bkind, bval, mn, mx)
+                if ref is None:
+                    if last != "ValueError":
+                        rec.fail(hist, "no datum within the limits of the last call, but it returned %r" % (last,))
+                        return None
+                elif isinstance(last, str):
+                    rec.fail(hist, "last dohist raised %s" % last)
+                    return None
+                else:
+                    hist_ref, members = ref[0], ref[1]
+                    h, rev = last
+                    ok = h.shape == hist_ref.shape and np.array_equal(h, hist_ref)
+                    if ok:
+                        for i in range(h.size):
+                            if rev[rev[i]:rev[i + 1]].tolist() != members[i]:
+                                ok = False
+                    if not ok:
+                        rec.fail(hist, "after %r the call %r on the same Binner gives hist=%r rev=%r; alone it gives hist=%r members=%r"
+                                 % (hist[:-1], hist[-1], h.tolist(), rev.tolist(), hist_ref.tolist(), members))
+                        return None
+            key = fingerprint({k: v for k, v in b.__dict__.items()}, dict(b))
+            return key, HOPS
+        return execute
+
+    hdepth = ctx.pick(3, 4)
+    for dname in HDATA:
+        for engine in (True, False):
+            ctx.histories("binner-reuse(%s,%s)" % (dname, "C" if engine else "py"), [()], make_execute(dname, engine),
+                          depth=hdepth, nodedup_depth=hdepth, bounds=dict(ops=[str(o) for o in HOPS], depth=hdepth))
